@@ -11,7 +11,7 @@ A unit file is C text with `#!` header lines and `//@` directives that pull text
   //@ include <file under /verif/specs>
   //@ struct <relpath> <name> [as <cname>]
   //@ enum <relpath> <name> [as <cname>] [nth <k>] [prefix <P>]
-  //@ init <relpath> <name>  [then optional `rule:` lines and `//@ endinit`]   (needs endinit only if rules given)
+  //@ init <relpath> <name> [after <text>]  [then optional `rule:` lines and `//@ endinit`]   (needs endinit only if rules given)
   //@ func <relpath> <Qualified::name> [match "<text>"] [nth <k>]      (`//@ func? ...`: skipped when the function does not exist)
       sig: <C signature>
       class: <Class> <header relpath>       (R1: members/methods read from the class declaration)
@@ -336,7 +336,7 @@ def _expand(u, text, depth=0, mutate=None):
             out.append('typedef %s %s;\n' % (e, cname))
         elif d.startswith('init '):
             t = d.split()
-            txt = cxx.preprocess(cxx.find_initializer(t[1], t[2]))
+            txt = cxx.preprocess(cxx.find_initializer(t[1], t[2], ' '.join(t[4:]) if len(t) > 4 and t[3] == 'after' else None))
             # optional rules until endinit
             if i < len(lines) and lines[i].strip().startswith('rule'):
                 while lines[i].strip() != '//@ endinit':
